@@ -980,8 +980,26 @@ def arange(*args, dtype=None):
     return ndarray._from_flat(vals, (len(vals),), kind)
 
 
-def linspace(*a, **k):
-    raise ModelGap("linspace")
+def linspace(start, stop, num=50, endpoint=True, dtype=None):
+    """numpy: step = (stop - start) / div ; y = arange(num) * step + start (last point fixed if endpoint)."""
+    num = int(num)
+    if builtins.any(symx._is_sym(v) for v in (start, stop)):
+        raise ModelGap("linspace with symbolic bounds")
+    if num < 0:
+        raise ValueError("Number of samples, %d, must be non-negative." % num)
+    div = (num - 1) if endpoint else num
+    start, stop = float(start), float(stop)
+    if num == 0:
+        return ndarray([], [], (0,), 'f')
+    delta = stop - start
+    if div > 0:
+        step = delta / div
+        vals = [f64(i * step + start) for i in range(num)] if step != 0 else [f64(i / div * delta + start) for i in range(num)]
+    else:
+        vals = [f64(start)] * num
+    if endpoint and num > 1:
+        vals[-1] = f64(stop)
+    return ndarray(vals, list(range(num)), (num,), 'f')
 
 
 # --------------------------------------------------------------------------- functions
@@ -1526,6 +1544,23 @@ def array_equal(a, b):
     if a.shape != b.shape:
         return False
     return (a == b).all()
+
+
+def isclose(a, b, rtol=1e-05, atol=1e-08, equal_nan=False):
+    a = asarray(a)
+
+    def close1(x, y):
+        nx, ny = symx.is_nan(x), symx.is_nan(y)
+        if nx is True or ny is True:
+            return bool(equal_nan) and nx is True and ny is True
+        if isinstance(x, float) and x in (float('inf'), float('-inf')) or isinstance(y, float) and y in (float('inf'), float('-inf')):
+            return x == y
+        return _abs(x - y) <= atol + rtol * _abs(y)
+    return a._binary(b, close1, _k_bool)
+
+
+def allclose(a, b, rtol=1e-05, atol=1e-08, equal_nan=False):
+    return isclose(a, b, rtol, atol, equal_nan).all()
 
 
 def isscalar(x):
